@@ -183,11 +183,11 @@ func newSparseFileLoader(name string, idx Index, s Store) *sparseFileLoader {
 func (l *sparseFileLoader) indexRange(start, length int64) (int, int) {
 	end := uint64(start + length - 1)
 	firstChunk := sort.Search(len(l.chunks), func(i int) bool { return start < int64(l.chunks[i].Start+l.chunks[i].Size) })
-	if length < 1 {
-		return firstChunk, firstChunk
-	}
 	if firstChunk >= len(l.chunks) { // reading past the end, load the last chunk
 		return len(l.chunks) - 1, len(l.chunks) - 1
+	}
+	if length < 1 {
+		return firstChunk, firstChunk
 	}
 
 	// Could do another binary search to find the last, but in reality, most reads are short enough to fall
@@ -204,6 +204,9 @@ func (l *sparseFileLoader) indexRange(start, length int64) (int, int) {
 
 // Loads all the chunks needed to populate the given byte range (if not already loaded)
 func (l *sparseFileLoader) loadRange(start, length int64) error {
+	if len(l.chunks) == 0 { // empty blob, nothing to load
+		return nil
+	}
 	first, last := l.indexRange(start, length)
 	var chunksNeeded []int
 	l.mu.RLock()
